@@ -26,6 +26,15 @@ def k_pole(rec):
 KNOWN = {"C05-north-pole": k_pole}
 
 
+def with_datetime(path, m0, m1, e0, e1, *rest):
+    """same call with datetime timestamps (epoch seconds given as floats, sub-second resolution)"""
+    import datetime
+    import run
+    t0 = datetime.datetime.fromtimestamp(e0, datetime.timezone.utc)
+    t1 = datetime.datetime.fromtimestamp(e1, datetime.timezone.utc)
+    return run.resolve(path)(m0, m1, t0, t1, *rest)
+
+
 def cases(ctx):
     rng = ctx.rng
     pts = []
@@ -72,5 +81,11 @@ def cases(ctx):
                 yield dict(op="%s %s %s %d %d %s %s" % (opn, m0, m1, t0, t1, cpr.fr(F(rla)), cpr.fr(F(rlo))),
                            real=(fn, [m0, m1, t0, t1, rla, rlo]), pred=pred, expect=exp, tag="pair" if same_nl else "nl-differs",
                            trivial=not same_nl, info=dict(lat=la, lon=lo, rlat=rla, rlon=rlo))
+                if rng.random() < 0.15:
+                    base = 1.7e9 + rng.randrange(10 ** 6)
+                    d = rng.choice([0.001, 0.25, 0.5, 0.999])
+                    ea, eb = (base, base + d) if later else (base + d, base)
+                    yield dict(op=None, real=("h:props.C05.with_datetime", [fn, m0, m1, ea, eb, rla, rlo]), pred=pred, expect=exp,
+                               tag="pair-datetime", trivial=not same_nl, info=dict(lat=la, lon=lo, rlat=rla, rlon=rlo))
         if rng.random() < 0.05:
             yield dict(op="position %s %s 1 2" % (m0, m1), real=("pyModeS.adsb.position", [m0, m1, 1, 2]), expect="RE", tag="no-ref", trivial=True)
